@@ -29,6 +29,7 @@ import (
 //	ru <id> <plugin> <settings> <workers>     Processors.Update
 //	rd <id>                                   Processors.Delete
 //	st <id> <status>                          env: pipeline.Service.UpdateStatus (what lifecycle does)
+//	sf <id> <status>                          env: UpdateStatus whose store write FAILS (a failed start / stop record)
 //	ss <id> <pos>                             env: connector.Service.SetState (what the persister does)
 //	Pc <name> / Cc <type> <pl> <name> <settings> / Rc <ptype> <parent> <settings>
 //	                                          env: file-provisioned pipeline / connector / processor
@@ -184,6 +185,14 @@ func crudOp(ctx context.Context, w *world, i int, f []string, k int) (cls string
 			return "", false
 		}
 		err = w.pl.UpdateStatus(ctx, w.id(atoi(f[1])), pipeline.Status(atoi(f[2])), "")
+	case "sf":
+		// the lifecycle's status write whose store Set fails (the run itself is not undone by that)
+		if !need(2) {
+			return "", false
+		}
+		id, st := w.id(atoi(f[1])), pipeline.Status(atoi(f[2]))
+		w.db.arm(1)
+		err = w.pl.UpdateStatus(ctx, id, st, "")
 	case "ss":
 		if !need(2) {
 			return "", false
@@ -304,6 +313,7 @@ func genCrud(r *gen.Rand, o *gen.Out, _ int) string {
 	// failure placement: none, on one op chosen up front, or on several ops
 	failMode := r.Pick(2, 5, 3)
 	failOp := r.Intn(n)
+	afterSf := 0
 	for i := 0; i < n; i++ {
 		var op string
 		api := true
@@ -314,7 +324,12 @@ func genCrud(r *gen.Rand, o *gen.Out, _ int) string {
 		case len(g.cns) == 0 && r.Chance(1, 2):
 			kind = []int{4, 4, 4, 13}[r.Intn(4)]
 		default:
-			kind = r.Pick(3, 4, 3, 2, 7, 5, 4, 8, 5, 4, 3, 3, 1, 1, 1)
+			kind = r.Pick(3, 4, 3, 2, 7, 5, 4, 8, 5, 4, 3, 3, 1, 1, 1, 1)
+		}
+		if afterSf > 0 {
+			// a failed "running" record is followed by mutating API calls on that pipeline's resources
+			afterSf--
+			kind = []int{5, 6, 4, 7, 8, 9, 1, 2}[r.Intn(8)]
 		}
 		switch kind {
 		case 0:
@@ -364,6 +379,10 @@ func genCrud(r *gen.Rand, o *gen.Out, _ int) string {
 		case 11:
 			op = fmt.Sprintf("ss %d %d", pick(r, g.cns, i), r.Intn(4))
 			api = false
+		case 15:
+			op = fmt.Sprintf("sf %d %d", pick(r, g.pls, i), []int{1, 1, 1, 1, 3, 4}[r.Intn(6)])
+			api = false
+			afterSf = r.Range(1, 3)
 		case 12:
 			op = fmt.Sprintf("Pc %d", freshName())
 			g.pls = append(g.pls, i)
